@@ -61,7 +61,8 @@ def parseGC (inp : Json) : Except String GCIn := do
   let provider ← (← arrD inp "provider").mapM (fun j => do
     pure ({ pid := ← strF j "pid", deleting := ← boolF j "deleting" } : Inst))
   let nodes ← (← arrD inp "nodes").mapM (fun j => do
-    pure ({ name := ← strF j "name", pid := ← strF j "pid", ready := (← strF j "ready") == "True" } : GNode))
+    pure ({ name := ← strF j "name", pid := ← strF j "pid", ready := (← strF j "ready") == "True",
+            terminating := ← boolD j "terminating" false } : GNode))
   let dfs ← (← arrD inp "deleteFaults").mapM (fun j => do
     pure ((← strF j "name"), (← parseFault (← strF j "fault"))))
   let lf ← (← arrD inp "nodeListFaultPids").mapM asStr
@@ -86,7 +87,8 @@ def gcOp (inp impl : Json) : Except String Resp := do
           (if !providerLacks i c then ["the provider still lists its instance (or the provider list failed)"] else []) ++
           (if !nodeAbsentOrNotReady i c then
             [if i.lookupFault.contains c.pid then "its Node could not be looked up (absent / not Ready was not established)"
-             else "a Node with its provider id is Ready"] else [])
+             else if i.nodes.any (fun n => n.pid == c.pid && n.ready && !n.terminating) then "a Node with its provider id is Ready"
+             else "a Node with its provider id is Ready (it carries a deletion timestamp, but it is still present)"] else [])
         s!"garbage collection deleted NodeClaim {d} although " ++ "; ".intercalate reasons
   pure { model := some model, spec := some bad.isEmpty, why := why }
 
@@ -132,7 +134,7 @@ def livenessOp (inp impl : Json) : Except String Resp := do
 def parseRNode (j : Json) : Except String RNode := do
   let conds ← (← arrD j "conds").mapM (fun c => do
     pure ({ type := ← strF c "type", status := ← strF c "status", since := ← intF c "since" } : NCond))
-  pure { pool := ← strF j "pool", conds }
+  pure { pool := ← strF j "pool", conds, terminating := ← boolD j "terminating" false }
 
 def repairOp (inp impl : Json) : Except String Resp := do
   let policies ← (← arrD inp "policies").mapM (fun p => do
@@ -172,10 +174,85 @@ def repairOp (inp impl : Json) : Except String Resp := do
     if !ok then
       (if !tolerationLasted i.policies i.node.conds i.now then "node repair issued a Delete before any unhealthy condition lasted its toleration"
        else if i.nodeListFault != .none then "node repair issued a Delete although the pool's nodes could not be listed"
-       else s!"node repair issued a Delete although {((breakerNodes i).filter (nodeUnhealthy i.policies)).length} of {(breakerNodes i).length} nodes are unhealthy (more than {documentedUnhealthyPercent}% rounded up)")
+       else s!"node repair issued a Delete although {((breakerNodes i).filter (nodeUnhealthy i.policies)).length} of {(breakerNodes i).length} nodes are unhealthy (more than {documentedUnhealthyPercent}% rounded up; {((breakerNodes i).filter (fun n => nodeUnhealthy i.policies n && n.terminating)).length} of the unhealthy nodes are terminating but still present)")
     else if !allowed then s!"model: {(outJson m).compress} branch {repr br}"
     else ""
   pure { allowed := some allowed, spec := some ok, why := why, extra := some (outJson m) }
+
+/-! ### c16.repair_seq -/
+
+def parseSNode (j : Json) : Except String SNode := do
+  let cp ← strF j "claimPool"
+  pure { node := ← parseRNode j, present := true, hasClaim := !(← boolD j "noClaim" false),
+         claimPool := if cp == "" then none else some cp, claimDeleting := ← boolD j "claimDeleting" false }
+
+def parseEvent (j : Json) : Except String REvent := do
+  let k ← natF j "k"
+  match ← strF j "op" with
+  | "reconcile" => pure (.reconcile k (← intF j "now") (← faultD j "nodeListFault") (← faultD j "deleteFault"))
+  | "cond" => pure (.setCond k { type := ← strF j "type", status := ← strF j "status", since := ← intF j "since" })
+  | "terminate" => pure (.terminate k)
+  | "gone" => pure (.gone k)
+  | s => throw s!"bad event {s}"
+
+def isReconcile : REvent → Bool
+  | .reconcile .. => true
+  | _ => false
+
+/-- does what the controller was seen to do in one reconcile agree with the model's step? -/
+def stepAgrees (m : Option (RepairIn × Out × RBranch)) (deletes : Nat) (requeue : Int) (err : Bool) : Bool :=
+  match m with
+  | none => deletes == 0 && requeue == 0 && !err          -- the Node is gone: nothing to reconcile
+  | some (_, o, br) =>
+    deletes == o.deletes && err == o.err &&
+      (match br with
+       | .wait => requeue == o.requeue
+       | .blocked => requeue > 0
+       | _ => requeue == 0)
+
+/-- the specification on what the controller did, the cluster state tracked from the Deletes it really issued:
+    (index of the first reconcile that issued a forbidden Delete, explanation) -/
+def seqSpec (ps : List Policy) : List SNode → List REvent → List (Nat × Int × Bool) → Nat → Option (Nat × String)
+  | _, [], _, _ => none
+  | st, ev :: rest, steps, n =>
+    match ev with
+    | .reconcile k now nlf df =>
+      match steps with
+      | [] => none
+      | (deletes, _, _) :: steps' =>
+        let i? := seqIn ps st k now nlf df
+        let ok := deletes == 0 || (match i? with | some i => repairMayDelete documentedUnhealthyPercent i | none => false)
+        if !ok then
+          let why := match i? with
+            | none => s!"reconcile #{n} (node {k}): node repair issued a Delete for a Node that no longer exists"
+            | some i =>
+              if !tolerationLasted i.policies i.node.conds i.now then s!"reconcile #{n} (node {k}): node repair issued a Delete before any unhealthy condition lasted its toleration"
+              else if i.nodeListFault != .none then s!"reconcile #{n} (node {k}): node repair issued a Delete although the pool's nodes could not be listed"
+              else s!"reconcile #{n} (node {k}): node repair issued a Delete although {((breakerNodes i).filter (nodeUnhealthy i.policies)).length} of {(breakerNodes i).length} nodes are unhealthy at that moment (more than {documentedUnhealthyPercent}% rounded up; {((breakerNodes i).filter (fun n => nodeUnhealthy i.policies n && n.terminating)).length} of the unhealthy nodes are terminating but still present)"
+          some (n, why)
+        else seqSpec ps (applyEvent st ev (deletes > 0 && df == .none)) rest steps' (n + 1)
+    | _ => seqSpec ps (applyEvent st ev false) rest steps n
+
+def repairSeqOp (inp impl : Json) : Except String Resp := do
+  let policies ← (← arrD inp "policies").mapM (fun p => do
+    pure ({ type := ← strF p "type", status := ← strF p "status", toleration := ← intF p "tolerationNs" } : Policy))
+  if policies.any (fun p => p.status == "") then throw "policy with an empty status is outside the model"
+  let st ← (← arrD inp "nodes").mapM parseSNode
+  let evs ← (← arrD inp "events").mapM parseEvent
+  let steps ← (← arrD impl "steps").mapM (fun j => do
+    pure ((← natF j "deletes"), (← intF j "requeueNs"), (← boolF j "err")))
+  let tr := ((evs.zip (runSeq policies st evs)).filter (fun p => isReconcile p.1)).map (·.2)
+  if tr.length != steps.length then throw s!"{steps.length} steps reported for {tr.length} reconcile events"
+  let cmp := (tr.zip steps).map (fun (m, (d, rq, e)) => stepAgrees m d rq e)
+  let allowed := cmp.all id
+  let modelJson := jArr (tr.map (fun m => match m with
+    | none => jObj [("gone", jBool true)]
+    | some (_, o, br) => jObj [("deletes", jNat o.deletes), ("requeueNs", jInt o.requeue), ("err", jBool o.err), ("branch", jStr (toString (repr br)))]))
+  let bad := seqSpec policies st evs steps 0
+  let why := match bad with
+    | some (_, w) => w
+    | none => if allowed then "" else s!"model and controller differ at reconcile #{(cmp.takeWhile id).length}"
+  pure { allowed := some allowed, spec := some bad.isNone, why := why, extra := some modelJson }
 
 def handle : Handler := fun op inp impl =>
   match op with
@@ -184,6 +261,7 @@ def handle : Handler := fun op inp impl =>
   | "c16.gc_lookup" => gcOp inp impl
   | "c16.liveness" => livenessOp inp impl
   | "c16.repair" => repairOp inp impl
+  | "c16.repair_seq" => repairSeqOp inp impl
   | _ => .error s!"unknown op {op}"
 
 end Karp.Driver.C16
